@@ -54,7 +54,7 @@ CondPairs(X, i, field, iv) == SelectSeq(PairsOf(X, i, "no", 1), LAMBDA p : In(iv
 ConditionalTable(X, m, field, bt, ths, legend) ==
   LET ivs == Intervals(bt, ths) IN
   [legend |-> legend,
-   rows |-> [k \in DOMAIN ivs |-> [desc |-> [kind |-> "number", axis |-> field, value |-> (IF ivs[k].lo = MInf THEN ivs[k].hi ELSE ivs[k].lo)[1]],
+   rows |-> [k \in DOMAIN ivs |-> [desc |-> [kind |-> "number", axis |-> "threshold", value |-> 0, center |-> (IF ivs[k].lo = MInf THEN ivs[k].hi ELSE ivs[k].lo)],
                                     scores |-> [i \in 1..X.n |-> Det(m, CondPairs(X, i, field, ivs[k]), "mean", Zero)]]]]
 \* the rows of consecutive `within=`-type events share no pair, and together hold the pairs whose value lies in (first, last]
 CondRowsDisjoint(X, i, field, ths) ==
